@@ -1,10 +1,19 @@
 HOOK_COMMITS = ["7de202d", "7f6c320"]
-FIX_COMMITS = ["7a73b90", "307c7cf", "73e9739", "b6ad768", "06a0422", "37593fd", "b26bda1", "ef4414e", "83534a3", "9d32858", "8df6799", "bfa46be", "d5169bc", "e984a30"]
+FIX_COMMITS = ["7a73b90", "307c7cf", "73e9739", "b6ad768", "06a0422", "37593fd", "b26bda1", "ef4414e", "83534a3", "9d32858", "8df6799", "bfa46be", "d5169bc", "e984a30", "8e975df"]
 
 NOTE_COMMON = ("Trusted: Lean kernel (axioms propext/Classical.choice/Quot.sound only), the hand-written model's "
                "fidelity outside the sampled correspondence, rustc/std and third-party crates as black boxes, the guarded hooks.")
 
 CLAIMS = {
+    "C18": {
+        "level": "Kernel-checked: the source's two flag tables (regenerated every run) put each documented short/long pair in one arm, are disjoint, and the scope "
+                 "table covers every command flag; in the model parser a long spelling at the head of the remaining arguments takes exactly the step of its short "
+                 "spelling in every parser state; an option flag at top level sets its field and nothing else (one-step form, option_position_partial) and is rejected "
+                 "inside an open scope. The whole-argv statements (any position, vic translation) are decided per run on the real code: every variant's parsed "
+                 "Opts/Cmd tree must equal the short-flag one and stdout/exit must be byte-identical; the model parser is compared on every flag spelling.",
+        "note": NOTE_COMMON + " PARTIAL: commutation of an option flag with a whole argument list is not a theorem (only its one-step form); the pest-generated vic parser is compared, not modelled.",
+        "technique": "Lean 4 proof (decide over translator-generated flag tables; one-step parser lemmas) + parser correspondence + four-spelling differential runs of the real binary",
+    },
     "C13": {
         "level": "Kernel-checked, for every buffer given by its line decomposition (any line bodies without newline, last line terminated or not; every buffer "
                  "without CR-LF clusters has one: theorem decompose), every match predicate (any regex engine) and both polarities: line_bounds gives each "
